@@ -79,5 +79,49 @@ func H_C03_message() {
 	}
 	second, err := m.Marshal()
 	vCheck(err == nil && vBytesEq(second, raw), "C03/message/second-marshal-identical")
+	// the same bytes with the reply flag flipped designate the other direction: they decode to that direction's
+	// structure or not at all (in particular when the code has no structure for that direction)
+	flipped := append([]byte{}, raw...)
+	flipped[9] ^= 0x80
+	o := NewMessage()
+	if o.Unmarshal(flipped) == nil {
+		var other command_interface.CommandInterface
+		var oerr error
+		if resp {
+			other, oerr = commands.CreateRequestCommand(code)
+		} else {
+			other, oerr = commands.CreateResponseCommand(code)
+		}
+		vCheck(oerr == nil && other != nil && o.Command != nil && vSameType(o.Command, other), "C03/message/reply-flag-selects-the-direction-of-the-decoded-structure")
+	}
+	vCover("end")
+}
+
+// Further commands added to a message are chained behind the first one: the header keeps designating the first command,
+// whose blocks follow the header.
+func H_C03_message_chain() {
+	code := codes.CommandCode(vParam("cmd"))
+	var c command_interface.CommandInterface
+	var err error
+	if vParam("resp") == 1 {
+		c, err = commands.CreateResponseCommand(code)
+	} else {
+		c, err = commands.CreateRequestCommand(code)
+	}
+	if err != nil {
+		vCover("end")
+		return
+	}
+	m := NewMessage()
+	m.AddCommand(c)
+	for _, follow := range []codes.CommandCode{codes.SMB_COM_ECHO, codes.SMB_COM_TREE_DISCONNECT} {
+		if nx, nerr := commands.CreateRequestCommand(follow); nerr == nil {
+			m.AddCommand(nx)
+		}
+	}
+	vCheck(m.Header.Command == code, "C03/message/header-designates-the-first-command-of-a-chain")
+	vCheck(m.Command == c, "C03/message/first-command-stays-first")
+	hb, err := m.Header.Marshal()
+	vCheck(err == nil && len(hb) == 32 && hb[4] == byte(code), "C03/message/chain-header-byte-4")
 	vCover("end")
 }
